@@ -19,6 +19,7 @@ class C13(Oracle):
         self.hist = {}          # (node, ind) -> [patience of 1st visit, of 2nd visit, ...] (None: no patience drawn)
         self.seen_seq = 0
         self.renpat = {}
+        self.cust = {}
         R.hooks.baulk_cbs.append(self.on_baulk)
 
     def add(self, a, b):
@@ -64,8 +65,10 @@ class C13(Oracle):
         self.baulks = []
         self.snap = {}
         self.N0 = R.sim.nodes[0].number_of_individuals if R.ev_type == "arrival" else None
+        self.cust = {}
         if R.ev_type == "renege":
             self.snap = {i.id_number: (bool(i.server), i.arrival_date) for i in R.inds(node)}
+            self.cust = {i.id_number: i for i in R.inds(node)}
 
     def micro(self, ev):
         if ev[2] == "acc":
@@ -84,6 +87,12 @@ class C13(Oracle):
             self.fail("renege-of-absent-customer", "ind %s at node %s" % (iid, nid))
         if st[0]:
             self.fail("customer-in-service-reneged", "ind %s at node %s was holding a server" % (iid, nid))
+        c = self.cust.get(iid)
+        if c is not None and len(c.data_records) >= 2 and c.data_records[-1].record_type == "renege":
+            r = c.data_records[-2]        # the record written before the renege record of this event
+            if r.record_type == "interrupted service" and r.node == nid and r.arrival_date == st[1] and r.destination != r.destination:
+                self.fail("reneged-after-service-had-started", "ind %s at node %s started service at %r (later pre-empted) and still reneged at %r" % (
+                    iid, nid, r.service_start_date, R.t))
 
     def after(self, node, nxt):
         R = self.R
